@@ -1,6 +1,3 @@
 /- The 128-bit vector back end of Skinny-128 parallel ECB: all lemmas (see `Vec128Base`) -/
 import SkinnyVerif.Lemmas.Vec128Round
-import SkinnyVerif.Lemmas.Vec128LoadE
-import SkinnyVerif.Lemmas.Vec128LoadD
-import SkinnyVerif.Lemmas.Vec128StoreE
-import SkinnyVerif.Lemmas.Vec128StoreD
+import SkinnyVerif.Lemmas.Vec128LoadStore
